@@ -157,3 +157,24 @@ Fixpoint after_runs {A : Type} (file : list A) (runs : list (list A)) : list A :
 (* what a writer WITHOUT truncation leaves (O_CREATE|O_WRONLY, writing from offset 0), at the
    granularity of equally long lines: the new lines, then the old tail *)
 Definition write_run_keep {A : Type} (old lines : list A) : list A := lines ++ skipn (List.length lines) old.
+
+(* ------------------------------------------------------------------ *)
+(* CSV style, text columns: writeCSVString writes the rendered fields joined by the separator, text
+   is NOT quoted.  A consumer splits the line at the separator. *)
+Fixpoint csv_join (sep : ascii) (fields : list lstr) : lstr :=
+  match fields with
+  | [] => []
+  | [f] => f
+  | f :: r => f ++ sep :: csv_join sep r
+  end.
+
+Fixpoint count_char (c : ascii) (s : lstr) : nat :=
+  match s with [] => O | x :: r => (if Ascii.eqb x c then 1 else 0) + count_char c r end.
+
+(* number of fields a reader gets from a line *)
+Definition split_count (sep : ascii) (line : lstr) : nat := S (count_char sep line).
+
+(* characters a text value must not contain to stay ONE field of ONE record in either CSV dialect *)
+Definition sep_char (c : ascii) : bool :=
+  Ascii.eqb c ","%char || Ascii.eqb c ";"%char || Ascii.eqb c (ascii_of_nat 10) || Ascii.eqb c (ascii_of_nat 13).
+Definition sepfree_text (s : string) : bool := forallb (fun c => negb (sep_char c)) (lstr_of s).
